@@ -1,6 +1,7 @@
 package c01
 
 import (
+	"encoding/hex"
 	"encoding/json"
 	"fmt"
 	"sort"
@@ -12,6 +13,7 @@ import (
 	"github.com/jcmturner/gokrb5/v8/keytab"
 	"github.com/jcmturner/gokrb5/v8/messages"
 	"github.com/jcmturner/gokrb5/v8/service"
+	"github.com/jcmturner/gokrb5/v8/test/testdata"
 	"github.com/jcmturner/gokrb5/v8/types"
 
 	"verifsim/core"
@@ -120,7 +122,8 @@ func run(tapeJSON json.RawMessage, res *core.Result) {
 	simrt.SleepExact(int64(time.Hour) + 333)
 	service.GetReplayCache(skew)
 
-	minter := &world.Minter{Seed: tp.RunSeed, Kt: ktm}
+	pacSample, _ := hex.DecodeString(testdata.MarshaledPAC_AD_WIN2K_PAC)
+	minter := &world.Minter{Seed: tp.RunSeed, Kt: ktm, PACFor: world.StdPACFor(pacSample, tp.RunSeed)}
 	rng := core.NewRng(tp.RunSeed).Derive("mint")
 	replay := map[string]bool{}
 	taint := map[string]bool{}
@@ -143,6 +146,9 @@ func run(tapeJSON json.RawMessage, res *core.Result) {
 				}
 				tr = truths[p.ReplayOf]
 				res.Probes["replayed"]++
+				if i == 2 && p.ReplayOf == 1 && len(tp.Pres) == 3 && len(truths[0].Defects) == 1 && truths[0].Defects[0] == "t-ctime-old" {
+					res.Probes["old-then-fresh-then-replay"]++
+				}
 			} else {
 				var err error
 				tr, err = minter.Mint(p.Spec, s, skew, rng)
@@ -214,6 +220,16 @@ func run(tapeJSON json.RawMessage, res *core.Result) {
 			if st.RequireAddr {
 				res.Probes["address-required"]++
 			}
+			if tr.HasPAC {
+				switch {
+				case tr.PACValid:
+					res.Probes["pac-valid"]++
+				case st.DecodePAC:
+					res.Probes["pac-invalid-with-decoding-enabled"]++
+				default:
+					res.Probes["pac-invalid-with-decoding-disabled"]++
+				}
+			}
 			if mv.Accept == "either" {
 				res.Stats["dont_care"]++
 			}
@@ -236,7 +252,10 @@ func run(tapeJSON json.RawMessage, res *core.Result) {
 				} else {
 					o.User, o.Domain = creds.UserName(), creds.Domain()
 					wantUser := strings.Join(tr.TktCName, "/")
-					if creds.UserName() != wantUser || strings.Join(creds.CName().NameString, "/") != wantUser {
+					// a verified PAC is sealed inside the ticket too: the user name may be the effective
+					// name the KDC put there (the captured sample PAC names "testuser1")
+					userOK := creds.UserName() == wantUser || (tr.HasPAC && tr.PACValid && st.DecodePAC && creds.UserName() == "testuser1")
+					if !userOK || strings.Join(creds.CName().NameString, "/") != wantUser {
 						engine.Violate(res, "wrong-identity|client-name-not-from-ticket", o)
 					}
 					if creds.Domain() != tr.TktCRealm || creds.Realm() != tr.TktCRealm {
